@@ -269,3 +269,174 @@ def check_roundtrip(rep, fb, rule_prefix="inv"):
                         rep.ob(rule_prefix + ".cts.roundtrip", "%s/%s,%s" % (inst, cname, dc), False, "no decrypt path for this case", loc)
         except Undecided as e:
             rep.undecided(rule_prefix + ".cts", inst, str(e), loc)
+
+
+# ---------------------------------------------------------------- helpers (bulk ECB/CBC, incl. parallel branch)
+def helper_fns(fb):
+    """free functions of cts that take (&B, [&mut Block,] InOutBuf<Block>): the bulk helpers."""
+    cr = fb.crate("cts")
+    out = []
+    for b in cr.bodies:
+        if b["kind"] != "fn" or "impl" in b:
+            continue
+        tys = [cr.types[l["ty"]] for l in b["locals"][1:b["arg_count"] + 1]]
+        if tys and tys[-1]["k"] == "adt" and tys[-1]["adt"].endswith("InOutBuf") and tys[0]["k"] == "ref":
+            out.append(b)
+    return cr, out
+
+
+def run_helper(fb, cr, body, count, npar, alias=False, single=True):
+    """run a bulk helper on `count` blocks with parallel width npar; returns single path."""
+    from .interp import Interp, State, Target, vbytes, vref
+    from .kernels import run_method, NPAR
+    ctx = base_ctx()
+    ctx.alias_len["ParBlocksSize"] = lin(npar)
+    F = base_facts()
+
+    def build(ip, st):
+        args = []
+        cells = {}
+        st.heap[("A", "cipher")] = ("opaque", "B")
+        args.append(vref(Target(("A", "cipher"))))
+        if body["arg_count"] == 3:
+            T.declare_var("iv", BS)
+            st.heap[("A", "iv")] = vbytes(T.bvar("iv"))
+            args.append(vref(Target(("A", "iv"))))
+            cells["iv"] = ("A", "iv")
+        total = lin(count) * BS
+        T.declare_var("hin", total)
+        T.declare_var("hout_old", total)
+        st.heap[("A", "in")] = vbytes(T.bvar("hin"))
+        tin = Target(("A", "in"), (("br", ZERO, total),))
+        if alias:
+            tout = tin
+            cells["out"] = ("A", "in")
+        else:
+            st.heap[("A", "out")] = vbytes(T.bvar("hout_old"))
+            tout = Target(("A", "out"), (("br", ZERO, total),))
+            cells["out"] = ("A", "out")
+        args.append(("iobuf", tin, tout, BS))
+        return args, cells
+    ip, paths = run_method(fb, cr, body, build, ctx, F)
+    if single:
+        if len(paths) != 1:
+            raise Undecided("%d paths in helper %s" % (len(paths), body["path"]))
+        return paths[0]
+    return paths
+
+
+def _par_used(p):
+    kinds = []
+
+    def walk(evs):
+        for e in evs:
+            if e[0] == "cipher":
+                kinds.append(e[2])
+            elif e[0] == "loop":
+                walk(e[3])
+    walk(p["events"])
+    return "par" in kinds
+
+
+def check_helpers(rep, fb, rule_prefix="helpers"):
+    """C07 (iv) / C14: one block of each bulk helper == the mode's one-block definition; one full
+    parallel group (symbolic width n) == n successive single steps from an arbitrary entry state.
+    Since the helper is a loop of groups followed by a loop of singles over the partition made by
+    InOutBuf::into_chunks, this gives helper == sequential processing for every width and count."""
+    from .kernels import NPAR
+    cr, helpers = helper_fns(fb)
+    if len(helpers) < 4:
+        rep.ob(rule_prefix + ".discovered", "cts", False, "expected 4 bulk helpers, found %d" % len(helpers))
+    for b in helpers:
+        inst = "cts::" + b["path"]
+        loc = loc_of(b)
+        try:
+            F = base_facts()
+            has_iv = b["arg_count"] == 3
+            one = run_helper(fb, cr, b, 1, 1)
+            o1 = one["cells"]["out"][1]
+            T.declare_var("hin", BS)
+            # which definition?  decided from the single-step summary itself
+            cands = {}
+            x = T.bvar("hin", ZERO, BS)
+            if has_iv:
+                T.declare_var("iv", BS)
+                for d in ("enc", "dec"):
+                    so, sw = S.cbc(d, x, T.bvar("iv"), F)
+                    cands["cbc-" + d] = (so, sw)
+            else:
+                cands["ecb-enc"] = (T.mkcipher("E", x, F), None)
+                cands["ecb-dec"] = (T.mkcipher("D", x, F), None)
+            match = None
+            for nm, (so, sw) in cands.items():
+                if T.bequal(o1, so, F) and (sw is None or T.bequal(one["cells"]["iv"][1], sw, F)):
+                    match = nm
+            rep.ob(rule_prefix + ".one-block", inst, match is not None, "single block step == %s" % (match or "none of " + ", ".join(cands)), loc, computed=T.bshow(o1))
+            if match is None:
+                continue
+            # one full group with symbolic width
+            grps = run_helper(fb, cr, b, NPAR, NPAR, single=False)
+            grps2 = run_helper(fb, cr, b, NPAR, NPAR, alias=True, single=False)
+            if not any(_par_used(g) for g in grps):
+                rep.ob(rule_prefix + ".par-group", inst, True, "helper has no parallel branch: strictly sequential for every width", loc)
+                continue
+            for gi, grp in enumerate(grps):
+                Fg = grp["F"]
+                tag = "par" if _par_used(grp) else "seq"
+                og = grp["cells"]["out"][1]
+                j = T.fresh("$hj")
+                v = Lin.sym(j)
+                Fj = Fg.copy()
+                Fj.add_ge(v)
+                Fj.add_ge(NPAR - 1 - v)
+                T.declare_var("hin", NPAR * BS)
+                cur = T.bslice(T.bvar("hin"), v * BS, BS, Fj)
+                prev = T.bslice(T.bvar("hin"), (v - 1) * BS, BS, Fj)
+                if match == "cbc-dec":
+                    w = T.bnorm((("i", ("eq", v), BS, T.bvar("iv"), prev),), Fj)
+                    tm = S.cbc("dec", cur, w, Fj)[0]
+                    fin = T.bslice(T.bvar("hin"), (NPAR - 1) * BS, BS, Fg)
+                elif match == "ecb-enc":
+                    tm = T.mkcipher("E", cur, Fj)
+                    fin = None
+                elif match == "ecb-dec":
+                    tm = T.mkcipher("D", cur, Fj)
+                    fin = None
+                else:
+                    rep.ob(rule_prefix + ".par-group", inst, False, "parallel branch on a chained encryption direction", loc)
+                    continue
+                exp = T.bnorm((("m", j, ZERO, NPAR, BS, tm),), Fg)
+                ok = T.bequal(og, exp, Fg)
+                if fin is not None:
+                    ok = ok and T.bequal(grp["cells"]["iv"][1], fin, Fg)
+                rep.ob(rule_prefix + ".par-group", "%s/%s" % (inst, tag), ok, "one group of n blocks (width n symbolic, %s path) == n successive single steps from an arbitrary state" % tag, loc, computed=T.bshow(og), expected=T.bshow(exp))
+                bad = [o for o in grp["oblig"] if not o["ok"]]
+                rep.ob(rule_prefix + ".no-panic", "%s/%s" % (inst, tag), not bad, "; ".join("%s %s" % (o["kind"], o["detail"]) for o in bad[:3]) or "%d panic obligations discharged" % len(grp["oblig"]), loc)
+                for g2 in grps2:
+                    if _par_used(g2) == _par_used(grp):
+                        rep.ob(rule_prefix + ".par-group.inplace", "%s/%s" % (inst, tag), T.bequal(g2["cells"]["out"][1], og, g2["F"]), "group processed in place == buffer to buffer", loc)
+        except Undecided as e:
+            rep.undecided(rule_prefix + ".one-block", inst, str(e), loc)
+
+
+def check_b2b(rep, fb, rule_prefix="b2b"):
+    """C13: encrypt_b2b / decrypt_b2b reach *_inout only through Ok of InOutBuf::new; unequal
+    lengths return Err before any write.  Decided on the provided trait methods' MIR."""
+    from . import cfg as G
+    cr = fb.crate("cts")
+    found = 0
+    for b in cr.bodies:
+        if b.get("in_trait") and b["name"] in ("encrypt_b2b", "decrypt_b2b"):
+            found += 1
+            inst = "cts::" + b["path"]
+            names = [fn["name"] for i, t, fn in G.calls(b)]
+            # structure: new -> map_err -> and_then(closure calling *_inout); no other call that can write
+            ok = names[:1] == ["new"] and set(names) <= {"new", "map_err", "and_then"}
+            rep.ob(rule_prefix + ".through-new", inst, ok, "calls: %s (the *_inout call lives in the and_then closure, reached only with Ok)" % names, loc_of(b))
+            # the closures
+            for c in cr.bodies:
+                if c["kind"] == "closure" and c["path"].startswith(b["path"]):
+                    cn = [fn["name"] for i, t, fn in G.calls(c)]
+                    rep.ob(rule_prefix + ".closure", "cts::" + c["path"], set(cn) <= {"encrypt_inout", "decrypt_inout"}, "closure calls %s" % cn, loc_of(c))
+    # InOutBuf::new itself (T1, analysed): Err iff lengths differ, no write
+    rep.ob(rule_prefix + ".found", "cts", found == 2, "%d provided *_b2b methods found" % found)
